@@ -3672,3 +3672,153 @@ def c18_no_call(nseq):
         out.append(struct(oid + '.defined.count', True, '%d distinct symbolic divisors, each shown non-zero for every admissible coverage distribution' % len(divisors), fn))
         return out
     return go()
+
+
+def c03_ensure_1arg_func():
+    """Misc.ensure_1arg_func: a constant c becomes the function t -> c (for every t), a one-argument function g stays t -> g(t) (same value at
+    every t, evaluated at the argument it is called with), and a function that does not accept exactly one argument is refused with ValueError.
+    This is how constants and time-functions reach the same time-dependent driver (C03: constants wrapped into functions of time)."""
+    oid = 'C03/Misc.py:ensure_1arg_func'
+    fn = 'dadi/Misc.py::ensure_1arg_func'
+
+    @guarded(oid, fn)
+    def go():
+        out = []
+        c, t = z3.Reals('c t')
+        ex = Executor()
+        f = ex.func('dadi/Misc.py', 'ensure_1arg_func')
+        paths = ex.run(f, [c], {})
+        if len(paths) != 1 or paths[0].outcome != 'return':
+            out.append(struct(oid + '.constant', False, 'expected one returning path: %r' % paths[:2], fn, undecided=True))
+        else:
+            sub = ex.explore(lambda e: e.call(paths[0].value, [t], {}))
+            ok = len(sub) == 1 and sub[0].outcome == 'return'
+            out.append(prove_eq(oid + '.constant', list(paths[0].pc) + (list(sub[0].pc) if ok else []), sub[0].value if ok else z3.RealVal(0), c, fn) if ok
+                       else struct(oid + '.constant', False, 'wrapped constant does not evaluate: %r' % sub[:2], fn))
+        g = uf('g')
+        seen = []
+
+        def gfun(x):
+            seen.append(x)
+            return g(to_real(exact(x)))
+        paths = ex.run(f, [PyFn(gfun, 'g')], {})
+        if len(paths) != 1 or paths[0].outcome != 'return':
+            out.append(struct(oid + '.function', False, 'expected one returning path: %r' % paths[:2], fn, undecided=True))
+        else:
+            sub = ex.explore(lambda e: e.call(paths[0].value, [t], {}))
+            ok = len(sub) == 1 and sub[0].outcome == 'return'
+            out.append(prove_eq(oid + '.function', list(sub[0].pc) if ok else [], sub[0].value if ok else z3.RealVal(0), g(t), fn) if ok
+                       else struct(oid + '.function', False, 'wrapped function does not evaluate: %r' % sub[:2], fn))
+        # a two-argument function: calling it with one argument is a TypeError in Python -> ValueError
+        mod = ModInfo.load('dadi/Misc.py')
+        two = Closure(ast.parse('lambda a, b: a').body[0].value, None, mod)
+        two.defaults = ([], [])
+        paths = ex.run(f, [two], {})
+        ok = len(paths) == 1 and paths[0].outcome == 'raise' and 'ValueError' in repr(paths[0])
+        out.append(struct(oid + '.refuses-two-argument-function', ok, 'raises ValueError: %r' % paths[:1], fn))
+        return out
+    return go()
+
+
+def c06_phi_reorder(K):
+    """PhiManip.reorder_pops(phi, neworder) (1-based): axis k of the result is population neworder[k] of the input, i.e.
+    result[j_0..j_{K-1}] = phi[i] with i[neworder[k]-1] = j_k, for every permutation of K populations on a grid with a different length per axis;
+    anything that is not a permutation of 1..K is refused.  No value is changed, dropped or duplicated."""
+    oid = 'C06/PhiManip.py:reorder_pops/%dD' % K
+    fn = 'dadi/PhiManip.py::reorder_pops'
+
+    @guarded(oid, fn)
+    def go():
+        out = []
+        shape = tuple(range(2, 2 + K))
+        f0 = {i: z3.Real('phi' + '_'.join(map(str, i))) for i in itertools.product(*[range(s) for s in shape])}
+        for perm in itertools.permutations(range(1, K + 1)):
+            phi = _nd_build(shape, lambda i: f0[i])
+            ex = Executor()
+            f = ex.func('dadi/PhiManip.py', 'reorder_pops')
+            paths = ex.run(f, [phi, VList(list(perm))], {})
+            tag = '%s.%s' % (oid, ''.join(map(str, perm)))
+            if len(paths) != 1 or paths[0].outcome != 'return':
+                out.append(struct(tag, False, 'expected one returning path: %r' % paths[:2], fn))
+                continue
+            res = paths[0].value
+            new_shape = tuple(shape[p - 1] for p in perm)
+            got_shape = ex.list_method(res, 'shape') if isinstance(res, VList) else None
+            ok = got_shape == new_shape
+            bad = None
+            if ok:
+                for j in itertools.product(*[range(s) for s in new_shape]):
+                    i = [0] * K
+                    for k, p in enumerate(perm):
+                        i[p - 1] = j[k]
+                    if _nd_get(res, j) is not f0[tuple(i)]:
+                        ok, bad = False, (j, tuple(i))
+                        break
+            out.append(struct(tag, ok, 'axis k of the result is population neworder[k]' if ok else 'shape %s (expected %s), first wrong entry %s' % (got_shape, new_shape, bad), fn))
+        for badorder in ([1] * K, list(range(K)), list(range(1, K)) if K > 1 else [2]):
+            phi = _nd_build(shape, lambda i: f0[i])
+            ex = Executor()
+            f = ex.func('dadi/PhiManip.py', 'reorder_pops')
+            paths = ex.run(f, [phi, VList(list(badorder))], {})
+            out.append(struct('%s.refuses.%s' % (oid, ''.join(map(str, badorder))), len(paths) == 1 and paths[0].outcome == 'raise', 'neworder %s raises' % badorder, fn))
+        return out
+    return go()
+
+
+def c06_remove_filter(K, tokeep=None, popnum=None):
+    """PhiManip.remove_pop(phi, xx, popnum) = trapezoid integration over that population's axis (weights of xx), all other axes untouched;
+    PhiManip.filter_pops(phi, xx, tokeep) = the same for every population not kept (any order of `tokeep`).  Every phi value and grid point symbolic;
+    the remaining trapezoid mass is the original one (when every axis shares the grid xx)."""
+    what = 'filter_pops.keep%s' % '_'.join(map(str, tokeep)) if tokeep is not None else 'remove_pop.%d' % popnum
+    oid = 'C06/PhiManip.py:%s/%dD' % (what, K)
+    fname = 'filter_pops' if tokeep is not None else 'remove_pop'
+    fn = 'dadi/PhiManip.py::' + fname
+
+    @guarded(oid, fn)
+    def go():
+        G = 3
+        xs = reals('x', G)
+        hy = [xs[i] < xs[i + 1] for i in range(G - 1)]
+        shape = (G,) * K
+        f0 = {i: z3.Real('phi' + '_'.join(map(str, i))) for i in itertools.product(*[range(G)] * K)}
+        phi = _nd_build(shape, lambda i: f0[i])
+        ex = Executor(policy=lambda fr: 'inline' if fr.qualname in ('remove_pop', 'filter_pops', 'trapz') else 'abstract')
+        f = ex.func('dadi/PhiManip.py', fname)
+        grid = VList(list(xs), 'ndarray')
+        paths = ex.run(f, [phi, grid, VList(list(tokeep)) if tokeep is not None else popnum], {}, base_pc=hy)
+        if len(paths) != 1 or paths[0].outcome != 'return':
+            return [struct(oid, False, 'expected one returning path: %r' % paths[:2], fn, undecided=True)]
+        res = paths[0].value
+        drop = sorted(set(range(K)) - {t - 1 for t in tokeep}) if tokeep is not None else [popnum - 1]
+        keep = [a for a in range(K) if a not in drop]
+        new_shape = tuple(G for _ in keep)
+        got_shape = (ex.list_method(res, 'shape') if isinstance(res, VList) else ())
+        out = [struct(oid + '.shape', got_shape == new_shape, 'shape %s (got %s)' % (new_shape, got_shape), fn)]
+        if got_shape != new_shape:
+            return out
+        w = _trapz_weights(xs)
+        pc = hy + list(paths[0].pc)
+        mass_new = z3.RealVal(0)
+        for j in itertools.product(*[range(G)] * len(keep)):
+            want = z3.RealVal(0)
+            for i in f0:
+                if tuple(i[a] for a in keep) == j:
+                    t = f0[i]
+                    for a in drop:
+                        t = t * w[i[a]]
+                    want = want + t
+            got = _nd_get(res, j) if keep else res
+            out.append(prove_eq('%s.entry%s' % (oid, '_'.join(map(str, j)) or 'scalar'), pc, got, want, fn))
+            tj = to_real(exact(got))
+            for a_ in j:
+                tj = tj * w[a_]
+            mass_new = mass_new + tj
+        mass_old = z3.RealVal(0)
+        for i, v in f0.items():
+            t = v
+            for a_ in i:
+                t = t * w[a_]
+            mass_old = mass_old + t
+        out.append(prove_eq(oid + '.mass-conserved', pc, mass_new, mass_old, fn))
+        return out
+    return go()
